@@ -141,6 +141,13 @@ Definition st_var (s : stats) : xnum :=
   | Fin a, Fin b, Fin w => if Qcltb 0 w then Fin ((b - a * a / w) / w) else NaN
   | _, _, _ => NaN end.
 
+(** the variance is a difference of two terms of size sum2/w and mean^2: its rounding error scales with those terms *)
+Definition var_close (eps : Qc) (s s' : stats) : bool :=
+  match st_var s, st_var s', st_sum s, st_sum2 s, st_weight s with
+  | Fin v, Fin v', Fin a, Fin b, Fin w =>
+      Qcleb (Qcabs (v - v')) (eps * qz 8 * Qcmax 1 (Qcabs (b / w) + (a / w) * (a / w) + Qcabs v))
+  | x, y, _, _, _ => xeqb x y end.
+
 (** what must hold after one accepted step, given the histogram before it (the laws of the property) *)
 Definition laws (eps : Qc) (before : ah) (o : sop) (after : ah) : bool :=
   bins_same (map axis_bins (ah_axes before)) (map axis_bins (ah_axes after)) &&
@@ -152,7 +159,7 @@ Definition laws (eps : Qc) (before : ah) (o : sop) (after : ah) : bool :=
       xclosel eps (map (xscale c') (ah_missed before)) (ah_missed after) &&
       match ah_stats before, ah_stats after with
       | Some s, Some s' => if stats_valid s && Qcltb 0 c' then
-                             xclose eps (st_mean s) (st_mean s') && xclose (eps * qz 8) (st_var s) (st_var s') &&
+                             xclose eps (st_mean s) (st_mean s') && var_close eps s s' &&
                              xeqb (st_min s) (st_min s') && xeqb (st_max s) (st_max s') &&
                              xclose eps (xscale c' (st_weight s)) (st_weight s')
                            else true
